@@ -119,7 +119,8 @@ func runC11(c *core.Ctx) {
 	inter, _ := gen.NewCA(gen.CertSpec{CN: "c11-inter"}, root)
 	cas := []*gen.CA{root, inter}
 	n := c.Pick(800, 15000)
-	byteEq, errorsOK, dsseOK, injective := int64(0), int64(0), int64(0), int64(0)
+	byteEq, errorsOK, dsseOK, injective, reuseOK := int64(0), int64(0), int64(0), int64(0), int64(0)
+	extraKey := gen.Mixed(pool, 5)[4].Pub
 	for i := 0; i < n; i++ {
 		if !c.Mine(i) {
 			continue
@@ -240,6 +241,60 @@ func runC11(c *core.Ctx) {
 				dsseOK++
 			}
 		}
+		// ---- re-used objects: metadata changed in place after a first use -------
+		if v2, what, ok := c11EditInPlace(v, i, extraKey); ok {
+			detail2 := map[string]any{"kind": v.kind, "value": json.RawMessage(treeJSON), "changed_in_place": what}
+			tree2JSON, _ := json.Marshal(v2.tree)
+			want2, _ := ref.Canonical(v2.tree)
+			key := keys[i%len(keys)]
+			// legacy: sign and verify the first content, then change it; the bytes that are signed follow
+			// (c11EditInPlace is applied after the first signature by the closure below)
+			mb := &intoto.Metablock{Signed: v.payload}
+			var e1, e2 error
+			var got2 []byte
+			if !c.Guard(id, "Metablock re-use", detail2, func() {
+				e1 = mb.Sign(key.Priv)
+				if e1 == nil {
+					e1 = mb.VerifySignature(key.Pub)
+				}
+				v2.apply()
+				mb.Signed = v2.payload
+				got2, e2 = mb.GetSignableRepresentation()
+			}) {
+				c.Eval(1)
+				switch {
+				case e1 != nil:
+					c.Violation("fresh signature does not verify on the signing object: "+core.MsgClass(e1.Error()), id, detail2)
+				case e2 != nil || !bytes.Equal(got2, want2):
+					detail2["implementation"], detail2["reference"] = string(got2), string(want2)
+					c.Violation("signed bytes of a re-used Metablock are not the canonical JSON of its current content (after verify, then change: "+what+")", id, detail2)
+				default:
+					// an old signature must not cover the new content, a new one must verify on a reloaded copy
+					if mb.VerifySignature(key.Pub) == nil {
+						c.Violation("signature over the earlier content accepted for changed content on a re-used Metablock ("+what+")", id, detail2)
+					} else if mb.Signatures = nil; mb.Sign(key.Priv) != nil {
+						c.Violation("re-used Metablock cannot be signed again", id, detail2)
+					} else {
+						p := filepath.Join(c.WorkDir, "reuse.json")
+						mb.Dump(p)
+						if md, lerr := intoto.LoadMetadata(p); lerr != nil || md.VerifySignature(key.Pub) != nil {
+							c.Violation("signature made on a re-used Metablock does not verify on a reloaded copy ("+what+")", id, detail2)
+						} else {
+							reuseOK++
+						}
+					}
+				}
+			}
+			// DSSE: the second SetPayload on the same envelope must carry the changed content
+			var serr2 error
+			if !c.Guard(id, "Envelope.SetPayload (second)", detail2, func() { serr2 = env.SetPayload(v2.payload) }) {
+				if serr2 != nil {
+					c.Violation("second SetPayload failed: "+core.MsgClass(serr2.Error()), id, detail2)
+				} else if c11DSSE(c, id, env, c11Value{kind: v2.kind, payload: v2.payload, tree: v2.tree}, key, tree2JSON) {
+					reuseOK++
+				}
+			}
+		}
 		c.End(id)
 		if hostile && hasHostile(string(treeJSON)) || strings.Contains(string(treeJSON), "cert_constraints") || strings.Contains(string(treeJSON), "rootcas") {
 			c.Class(string(treeJSON))
@@ -252,6 +307,43 @@ func runC11(c *core.Ctx) {
 	c.Obs("non_integral_refused", errorsOK)
 	c.Obs("dsse_payload_valid_and_roundtrips", dsseOK)
 	c.Obs("single_edit_variants_distinct", injective)
+	c.Obs("reused_objects_follow_in_place_changes", reuseOK)
+}
+
+// c11Edit is a change made in place (inside a map or slice the first payload shares) after the
+// first use of a wrapper object; apply() performs it, tree is the expected tree afterwards.
+type c11Edit struct {
+	kind    string
+	payload any
+	tree    map[string]any
+	apply   func()
+}
+
+func c11EditInPlace(v c11Value, i int, extra intoto.Key) (*c11Edit, string, bool) {
+	tree := gen.DeepCopy(v.tree).(map[string]any)
+	switch p := v.payload.(type) {
+	case intoto.Link:
+		if i%4 == 0 && p.ByProducts != nil {
+			tree["byproducts"].(map[string]any)["zz-added"] = "late\nline"
+			return &c11Edit{v.kind, p, tree, func() { p.ByProducts["zz-added"] = "late\nline" }}, "link.byproducts[new key]", true
+		}
+		if p.Products != nil {
+			tree["products"].(map[string]any)["zz-added"] = map[string]any{"sha256": "00ff"}
+			return &c11Edit{v.kind, p, tree, func() { p.Products["zz-added"] = intoto.HashObj{"sha256": "00ff"} }}, "link.products[new path]", true
+		}
+	case intoto.Layout:
+		if i%4 != 1 && len(p.Steps) > 0 && len(p.Steps[0].PubKeys) > 0 {
+			tree["steps"].([]any)[0].(map[string]any)["pubkeys"].([]any)[0] = "ff00"
+			return &c11Edit{v.kind, p, tree, func() { p.Steps[0].PubKeys[0] = "ff00" }}, "layout.steps[0].pubkeys[0]", true
+		}
+		if p.Keys != nil {
+			if _, has := p.Keys[extra.KeyID]; !has {
+				tree["keys"].(map[string]any)[extra.KeyID] = gen.KeyTree(extra)
+				return &c11Edit{v.kind, p, tree, func() { p.Keys[extra.KeyID] = extra }}, "layout.keys[new key]", true
+			}
+		}
+	}
+	return nil, "", false
 }
 
 // normTree converts ints to json-compatible numbers (through JSON).
@@ -341,12 +433,12 @@ func init() {
 	core.Register(&core.Property{
 		ID:    "C11",
 		Level: "exploration",
-		Rule: "seeded links and layouts with every field populated (strings over an alphabet with quotes, backslashes, all kinds of control characters, DEL, U+2028, <>&, non-ASCII, astral and combining characters; nested by-product/environment values: maps, lists, ints, bools, null, integral and non-integral floats; certificate constraints and CA maps present or absent), rendered in parallel as library structs and as a generic tree with the member names of the in-toto specification. Checks per value: byte equality of GetSignableRepresentation with the reference OLPC canonicalisation; 6 re-serialisations of the file (shuffled member order, random whitespace, alternative spellings of integral numbers) give the same bytes; every single-leaf edit gives different bytes (collision set); non-integral numbers are refused; DSSE: SetPayload/Sign/Dump, payload strictly valid JSON, decodes to the set value, LoadMetadata returns the set value and verifies. " +
+		Rule: "seeded links and layouts with every field populated (strings over an alphabet with quotes, backslashes, all kinds of control characters, DEL, U+2028, <>&, non-ASCII, astral and combining characters; nested by-product/environment values: maps, lists, ints, bools, null, integral and non-integral floats; certificate constraints and CA maps present or absent), rendered in parallel as library structs and as a generic tree with the member names of the in-toto specification. Checks per value: byte equality of GetSignableRepresentation with the reference OLPC canonicalisation; 6 re-serialisations of the file (shuffled member order, random whitespace, alternative spellings of integral numbers) give the same bytes; every single-leaf edit gives different bytes (collision set); non-integral numbers are refused; DSSE: SetPayload/Sign/Dump, payload strictly valid JSON, decodes to the set value, LoadMetadata returns the set value and verifies. Re-used objects: after a first Sign+Verify (Metablock) / SetPayload+Sign+Dump (Envelope) the metadata is changed in place through a map or slice it shares with the caller (new product path, new by-product, pubkeys[0], new layout key); the signed bytes must be the canonical JSON of the changed content, the old signature must not verify any more, a new one must verify on a reloaded copy, and a second SetPayload on the same envelope must carry the changed content. " +
 			"non-trivial = value contains a hostile string or an optional member; distinct = hash of the value",
 		Assumptions: []string{"strings are valid UTF-8 (JSON cannot carry anything else)", "all collections are non-nil, so the reference rendering is fixed by the specification's field table (harness/gen/meta.go)", "for DSSE, refusing non-integral numbers is not demanded"},
 		Workers:     func(string) int { return 16 },
 		Floors: func(string) map[string]int64 {
-			return map[string]int64{"byte_equal_to_reference": 500, "non_integral_refused": 10, "dsse_payload_valid_and_roundtrips": 500, "single_edit_variants_distinct": 5000}
+			return map[string]int64{"byte_equal_to_reference": 500, "non_integral_refused": 10, "dsse_payload_valid_and_roundtrips": 500, "single_edit_variants_distinct": 5000, "reused_objects_follow_in_place_changes": 500}
 		},
 		Run:      runC11,
 		TimeoutS: func(t string) int { return 900 },
